@@ -73,8 +73,9 @@ class LoopSpec:
     modifies: extra havoc targets: ('heap', obj, field) / ('ghost', name) / ('var', name); assigned local
     variables of the body are havocked automatically."""
 
-    def __init__(self, fingerprint, inv, modifies=(), decreases=None):
+    def __init__(self, fingerprint, inv, modifies=(), ghost_start=None, ghost_end=None, no_end=False):
         self.fingerprint, self.inv, self.modifies = fingerprint, inv, list(modifies)
+        self.ghost_start, self.ghost_end, self.no_end = ghost_start, ghost_end, no_end
 
 
 class FnSpec:
@@ -219,6 +220,20 @@ class Ex:
             return
         self._seen.add(k)
         self.obligations.append(ob)
+
+    def lemma(self, name, f, using=None):
+        """prove, then use.  `using`: a subset of facts (each must already be in, or proved from, the path condition)
+        that suffices; keeping the query small is what makes string lemmas decidable (DESIGN 2.1 step 4)."""
+        if using is None:
+            self.oblige(f"lemma[{name}]", f, kind="lemma")
+        else:
+            saved = self.pc
+            self.pc = list(using)
+            try:
+                self.oblige(f"lemma[{name}]", f, kind="lemma")
+            finally:
+                self.pc = saved
+        self.assume(f)
 
     def require(self, name, cond, site=""):
         self.oblige(name, cond, kind="pre", site=site)
@@ -607,12 +622,16 @@ class Ex:
                 self.assign(s.target, VTuple([VInt(k), el]) if mode == "enum" else el)
                 nxt = k + 1
             self.cover(f"loop{ordn}.body")
+            if ls.ghost_start:
+                ls.ghost_start(self, seen if mode == "set" else k)
             try:
                 self.exec_block(s.body)
             except _Continue:
                 pass
             except _Break:
                 return  # continues after the loop, skipping orelse
+            if ls.ghost_end:
+                ls.ghost_end(self, seen if mode == "set" else k)
             self.cover(f"loop{ordn}.end")
             for nm, f in ls.inv(self, nxt):
                 self.oblige(f"loop{ordn}.preserved[{nm}]", f, kind="inv-preserved", site=ls.fingerprint or "")
